@@ -8,3 +8,19 @@ Theorem C14_positions_gb_eq_gff : forall f,
   gb_positions_form0 f = gff_positions f /\ gb_positions_form1 f = gff_positions f.
 Proof. exact positions_gb_eq_gff. Qed.
 Print Assumptions C14_positions_gb_eq_gff.
+
+(* a consistent annotation - the GenBank /translation is what the CDS translates to (stop excluded) - gives the SAME region
+   (name, strand, ordered positions, residues) on the GenBank path, in either spelling of a reverse-strand join, and on
+   the GFF3 path, which recomputes the residues from the reference bases at those positions *)
+Theorem C14_regions_gb_eq_gff : forall genome f translation form1,
+  gff_translation genome f = Ok (translation ++ [42%N]) -> region_gff genome f = Ok (region_gb form1 f translation).
+Proof. exact regions_gb_eq_gff. Qed.
+Print Assumptions C14_regions_gb_eq_gff.
+
+(* hence, for every list of coding features, the two descriptions hand identical region lists to the variant caller
+   (which is one function of the rows and the regions: C04, C05), so the mutations are the same, in the same order *)
+Theorem C14_region_lists_gb_eq_gff : forall genome fs trs forms, length trs = length fs -> length forms = length fs ->
+  (forall k, (k < length fs)%nat -> gff_translation genome (nth k fs {| f_name := []; f_rev := false; f_segs := []; f_cstart := 1 |}) = Ok (nth k trs [] ++ [42%N])) ->
+  map (region_gff genome) fs = map (@Ok aregion) (map (fun x => region_gb (fst (fst x)) (snd (fst x)) (snd x)) (combine (combine forms fs) trs)).
+Proof. exact region_lists_gb_eq_gff. Qed.
+Print Assumptions C14_region_lists_gb_eq_gff.
